@@ -28,3 +28,4 @@ def run(ctx, rep):
     objmodel.rule_own_questions_stay_on_the_receiver(ctx, rep, "C08-R21")
     objmodel.rule_delete_answers_gone(ctx, rep, "C08-R22")
     objmodel.rule_native_arrays_get_the_prototype(ctx, rep, "C08-R23")
+    objmodel.rule_function_prototype_objects_are_ordinary(ctx, rep, "C08-R24")
